@@ -65,6 +65,14 @@ CLAIMED = {
    "Structural necessary conditions of declared order: the loops that build the sheet, slide and chapter lists are forward ranges over the declared lists (workbook sheets by relationship id, p:sldIdLst by relationship id, OPF spine by manifest idref), append inside that loop, are not followed by a sort and do not derive from the ZIP member list; the PPTX declared list wins whenever non-empty (no other condition between the lookup and its use); EPUB hrefs are decoded with url.PathUnescape and joined to the package directory; the page count is the length of the same list.",
    "Trusted: go/ssa; readability of declared parts and run-time path shapes are not decided.",
    "loop-provenance (def-use) of ordered collections + disallowed-call rule + guard inspection", "DESIGN.md §4 C18"),
+ "C09": ("other",
+   "Structural necessary conditions of 'layout only regroups text': a path-enumerating analysis of every accumulating range loop in the regrouping and text-assembly functions named by the property (typed AST, with element taint, outer-alias recognition and flag correlation) shows that each iteration path transfers its element or skips it only under an emptiness test; all other skips are reported as lossy filters (two documented size filters are listed as known findings with their inputs, one de-duplication is justified in the checker); no path writes an element's text twice; merge loops thread their accumulator; column intervals built from gaps tile.",
+   "Trusted: go/types; the transfer recogniser (append / indexed store / Write*/Add*/Set* calls / composite assignment); callee behaviour inside loop bodies is not followed; multiset equality and ordering are not decided.",
+   "iteration-path enumeration on the typed AST (must-transfer) + accumulator threading + edge-kind agreement", "DESIGN.md §4 C09"),
+ "C12": ("other",
+   "Structural necessary conditions of 'chunks cover the document once, in order': exhaustiveness of the element type switch over all implementations of model.Element (from the type checker), every Section container filled by section building is iterated by something reachable from Chunk (VTA reachability), the lossy-filter analysis of C09 on the section-building and chunking loops, exactly-one index increment dominating every return of each create*Chunk, TotalChunks = len(chunks), an abstract walk of the paragraph splitter proving that every direct emission happens with the pending buffer empty (flush or Len()>0 false edge since the last write), sibling agreement of the two TOC matchers, and the page-stamp rule of C10.",
+   "Trusted: go/types, go/ssa, VTA; the emptiness abstraction of the pending buffer tracks writes and flushes syntactically in one function; exactly-once coverage as a multiset is not decided.",
+   "type-switch exhaustiveness + written-never-read containers (call-graph reachability) + path enumeration + typestate of the pending buffer", "DESIGN.md §4 C12"),
 }
 
 NOT_BUILT = "rules for this property are not built yet in this revision of /verif (see DESIGN.md §4 for the plan)"
